@@ -326,7 +326,16 @@ class Parser(RstParser):
         # a container (a final ``>``) that is the end of the text
         if not inputstring.endswith("\n"):
             inputstring += "\n"
-        parser.render(inputstring)
+        from docutils.parsers.rst import roles
+
+        try:
+            parser.render(inputstring)
+        finally:
+            # like the docutils rST parser, restore the "default" default role
+            # (which may have been changed by a `default-role` directive);
+            # also when the render is halted by a severe system message,
+            # otherwise the role leaks into the next parse of the process
+            roles._roles.pop("", None)
 
         # post-processing
 
@@ -344,12 +353,6 @@ class Parser(RstParser):
                         anchor = anchor.parent
                     anchor.parent.insert(anchor.parent.index(anchor) + 1, warning)
                     node.parent.remove(node)
-
-        # like the docutils rST parser, restore the "default" default role
-        # (which may have been changed by a `default-role` directive)
-        from docutils.parsers.rst import roles
-
-        roles._roles.pop("", None)
 
         self.finish_parse()
 
